@@ -251,6 +251,16 @@ impl C20 {
         if let Some((sig, d)) = diff_traces("fresh-thread-state", &base, "after-other-contexts", &after) {
             return CaseOut::fail(src.to_string(), format!("after-contexts: {sig}"), d);
         }
+        // (b') the allocation history of the thread decides WHEN collections happen: the same program under
+        // a different collection schedule (every k-th allocation) must give the same trace. WeakRef and
+        // FinalizationRegistry may legitimately observe collections (that exception is C10's subject).
+        if !src.contains("WeakRef") && !src.contains("FinalizationRegistry") {
+            let k = [1u64, 2, 5, 17][t.below(4)];
+            let stressed = run_with(src, &RunCfg { gc_stress: k, ..cfg() }, install_realm_api);
+            if let Some((sig, d)) = diff_traces("fresh-thread-state", &base, "other-collection-schedule", &stressed) {
+                return CaseOut::fail(src.to_string(), format!("collection-schedule: {sig}"), format!("collect every {k}-th allocation\n{d}"));
+            }
+        }
         // (c) sabotage in another context first
         let after = run_after_contexts(&[order::SABOTAGE.to_string()], src);
         if let Some((sig, d)) = diff_traces("fresh-thread-state", &base, "after-sabotaged-context", &after) {
@@ -316,7 +326,7 @@ impl Prop for C20 {
         ]
     }
     fn rule(&self) -> String {
-        "determinism streams (order = programs observing property/Map/Set/JSON/sort/template/name order after random inserts and deletes; core = gen::prog; wild = random builtin calls): each program P is run (a) twice on fresh contexts, (b) after 1-3 other contexts ran random programs and were dropped, (c) after another context was sabotaged (every configurable builtin reachable from its global deleted/overwritten/frozen/re-prototyped), (d) in a fresh realm of a context whose first realm was sabotaged, (e) in another process (different ASLR, hash seeds, environment size); all traces must be byte-identical. realm stream: programs that create a second realm through a host newRealm() (test262-style evalScript), pass values across in both directions and probe instanceof/prototype identity/species/thrown-error realm/this-binding, plus intrinsic mutations in one realm observed from the other; boa's trace must equal V8's (vm contexts) and be unaffected by a sabotaged sibling realm. Non-trivial = >= 3 order-sensitive observations (determinism) / >= 4 probe lines (realm); distinct = distinct source".into()
+        "determinism streams (order = programs observing property/Map/Set/JSON/sort/template/name order after random inserts and deletes; core = gen::prog; wild = random builtin calls): each program P is run (a) twice on fresh contexts, (b) after 1-3 other contexts ran random programs and were dropped, (b') under a different collection schedule (a collection every k-th allocation, k in {1,2,5,17}; programs mentioning WeakRef/FinalizationRegistry exempt), (c) after another context was sabotaged (every configurable builtin reachable from its global deleted/overwritten/frozen/re-prototyped), (d) in a fresh realm of a context whose first realm was sabotaged, (e) in another process (different ASLR, hash seeds, environment size); all traces must be byte-identical. realm stream: programs that create a second realm through a host newRealm() (test262-style evalScript), pass values across in both directions and probe instanceof/prototype identity/species/thrown-error realm/this-binding, plus intrinsic mutations in one realm observed from the other; boa's trace must equal V8's (vm contexts) and be unaffected by a sabotaged sibling realm. Non-trivial = >= 3 order-sensitive observations (determinism) / >= 4 probe lines (realm); distinct = distinct source".into()
     }
     fn assumptions(&self) -> Vec<String> {
         vec!["programs avoid Math.random, Date.now, performance, locale".into()]
